@@ -97,24 +97,47 @@ Proof. exact open_point_zero_refuted. Qed.
    C05_open_point_zero applies: schema without root).  Stamps after the scripts are refuted. *)
 Theorem C05_schema_source_structure :
   GenCrashSchema.apply_schema_sequence = [10; 11; 12; 1; 2; 3; 4] /\
-  GenCrashSchema.apply_schema_writes = [1; 2; 3].
-Proof. split; [exact CrashSchemaProofs.schema_sequence_eq | exact CrashSchemaProofs.schema_order_eq]. Qed.
+  GenCrashSchema.apply_schema_writes = [1; 2; 3] /\
+  (* every statement of the schema scripts is CREATE ... IF NOT EXISTS, or DROP ... IF EXISTS directly
+     followed by the CREATE IF NOT EXISTS of the same object (read from the scripts on every run) *)
+  GenCrashSchema.schema_statements_idempotent = true.
+Proof.
+  split; [exact CrashSchemaProofs.schema_sequence_eq|].
+  split; [exact CrashSchemaProofs.schema_order_eq | exact CrashSchemaProofs.schema_idempotent_eq].
+Qed.
 
+(* for ANY positions of the DROPs and any number of objects, a first start ([new_file]) or a start on a
+   file that carries the application id, killed after any number k of statements: the next
+   apply_schema returns without error and the file has both stamps and every object *)
 Theorem C05_schema_every_prefix_reopens :
-  forall n k, exists fresh,
-    CrashSchema.open_schema GenCrashSchema.apply_schema_writes n
-      (CrashSchema.schema_crash GenCrashSchema.apply_schema_writes n k) = CrashSchema.SOk fresh (CrashSchema.complete n).
+  forall drops n k h0,
+    (CrashSchema.happ h0 = true \/ CrashSchema.hobjs h0 = []) ->
+    exists fresh h,
+      CrashSchema.open_schema GenCrashSchema.apply_schema_writes drops n
+        (CrashSchema.schema_crash_from h0 GenCrashSchema.apply_schema_writes drops n k) = CrashSchema.SOk fresh h /\
+      CrashSchema.complete_b n h = true.
 Proof. exact CrashSchemaProofs.schema_prefix_reopens. Qed.
 
 Theorem C05_schema_stamps_after_scripts_refuted :
-  exists n k, CrashSchema.open_schema [3; 1; 2] n (CrashSchema.schema_crash [3; 1; 2] n k)
+  exists n k, CrashSchema.open_schema [3; 1; 2] [] n (CrashSchema.schema_crash [3; 1; 2] [] n k)
               = CrashSchema.SInvalidApplicationId.
 Proof. exact CrashSchemaProofs.schema_stamps_last_refuted. Qed.
 
+(* the GENERATED instance (number of persistent objects and DROP positions of the real scripts): every
+   prefix of a first start and of a start on a complete file reopens; not with the stamps last; a kill
+   right after a DROP of a start on a complete file does leave the object missing until the next start *)
 Example C05_schema_example :
-  forallb (CrashSchema.reopens_b GenCrashSchema.apply_schema_writes 5) (seq 0 9) = true /\
-  forallb (CrashSchema.reopens_b [3; 1; 2] 5) (seq 0 9) = false /\
-  CrashSchema.hobjs (CrashSchema.schema_crash GenCrashSchema.apply_schema_writes 5 4) = [0%nat; 1%nat].
+  let n := GenCrashSchema.schema_persistent_objects in
+  let d := GenCrashSchema.schema_drops in
+  let w := GenCrashSchema.apply_schema_writes in
+  forallb (CrashSchema.reopens_b w d n) (seq 0 (S CrashSchemaProofs.gen_prog_len)) = true /\
+  forallb (fun k => match CrashSchema.open_schema w d n
+                            (CrashSchema.schema_crash_from CrashSchemaProofs.gen_complete w d n k) with
+                    | CrashSchema.SOk _ h => CrashSchema.complete_b n h | _ => false end)
+          (seq 0 (S CrashSchemaProofs.gen_prog_len)) = true /\
+  forallb (CrashSchema.reopens_b [3; 1; 2] d n) (seq 0 (S CrashSchemaProofs.gen_prog_len)) = false /\
+  existsb (fun k => negb (CrashSchema.complete_b n (CrashSchema.schema_crash_from CrashSchemaProofs.gen_complete w d n k)))
+          (seq 0 (S CrashSchemaProofs.gen_prog_len)) = negb (match d with [] => true | _ => false end).
 Proof. exact CrashSchemaProofs.schema_example. Qed.
 
 (* ---- 2. interrupted steps ---------------------------------------------------------------------*)
